@@ -28,6 +28,7 @@ def all_scripts(tier):
     fam += [("step/" + o, s) for o, s, _, _ in c04.equivalence_family(tier)]
     fam += [("split/" + k, v) for k, v in c05.skeletons(tier).items()]
     fam += skeletons.feature_family()
+    fam += skeletons.ctx_family(tier)
     return fam
 
 
